@@ -380,6 +380,7 @@ def check(ctx):
         ctx.sample(s)
     gradient_oracle(ctx)
     backward_options_contract(ctx)
+    round3_contract(ctx)
 
 
 # ---------------------------------------------------------------------------------------
@@ -579,6 +580,89 @@ def backward_options_contract(ctx):
     if not seen or any(k != {"bckonly": 4} for k in seen):
         ctx.fail("oracle", "options:rootfinder:backward-solver-options", {"bck_options": {"method": "<callable>", "bckonly": 4}}, seen[:2],
                  "the backward solver is called with {'bckonly': 4}")
+
+
+def round3_contract(ctx):
+    """(a) an option whose value is None is an option like any other: it reaches the forward callable and the backward solver
+    (round-3 seed C18/9: set_default_option dropped None values);  (b) quad with a tuple-valued integrand hands the caller's
+    bck_options to the backward quadrature like the tensor-valued branch does (C18/7);  (c) an all-zero right-hand side whose batch
+    shape is smaller than the operator's gives the broadcast shape for every method, callables included, and gradients of the
+    shapes of the inputs (C18/8)"""
+    import xitorch as xt
+    from xitorch.linalg import solve, symeig
+    from xitorch.optimize import rootfinder
+    from xitorch.integrate import quad
+    from xitorch._impls.linalg.solve import exactsolve
+    from xitorch._impls.integrate.fixed_quad import leggauss
+    seen_f, seen_b = [], []
+
+    def fwd(A, B, E=None, M=None, **kw):
+        seen_f.append(dict(kw))
+        return exactsolve(A, B, E, M)
+
+    def bck(A, B, E=None, M=None, **kw):
+        seen_b.append(dict(kw))
+        return exactsolve(A, B, E, M)
+    g = torch.Generator().manual_seed(ctx.seed + 93)
+    Am = (torch.randn(4, 4, dtype=DT, generator=g) + 4 * torch.eye(4, dtype=DT)).requires_grad_()
+    Bm = torch.randn(4, 1, dtype=DT, generator=g)
+    X = solve(xt.LinearOperator.m(Am, is_hermitian=False), Bm, method=fwd, maxiter=None, tag=7,
+              bck_options={"method": bck, "tolx": None, "tag": 8})
+    torch.autograd.grad(X.sum(), Am)
+    ctx.count(("none-valued-option", "solve"), nontrivial=True)
+    if seen_f[:1] != [{"maxiter": None, "tag": 7}] or not seen_b or any(k != {"tolx": None, "tag": 8} for k in seen_b):
+        ctx.fail("oracle", "options:solve:none-valued-option-dropped", {"fwd_options": {"maxiter": None, "tag": 7}, "bck_options": {"method": "<callable>", "tolx": None, "tag": 8}},
+                 {"forward_received": seen_f[:1], "backward_received": seen_b[:1]}, "exactly the caller's options, None values included")
+    del seen_f[:], seen_b[:]
+    a = torch.tensor([0.7, 1.1, 0.4], dtype=DT, requires_grad=True)
+    y = rootfinder(lambda y, a: y ** 3 + a * y - 1.0, torch.zeros(3, dtype=DT), params=(a,), bck_options={"method": bck, "tolx": None})
+    torch.autograd.grad(y.sum(), a)
+    ctx.count(("none-valued-option", "rootfinder"), nontrivial=True)
+    if not seen_b or any(k != {"tolx": None} for k in seen_b):
+        ctx.fail("oracle", "options:rootfinder:none-valued-option-dropped", {"bck_options": {"method": "<callable>", "tolx": None}}, seen_b[:1],
+                 "the backward solver is called with {'tolx': None}")
+    # (b) quad, tuple-valued integrand: forward by a recorded callable, backward by another one
+    qf, qb = [], []
+
+    def qfwd(fcn, xl, xu, params, **kw):
+        qf.append(dict(kw))
+        return leggauss(fcn, xl, xu, params, n=20)
+
+    def qbck(fcn, xl, xu, params, **kw):
+        qb.append(dict(kw))
+        return leggauss(fcn, xl, xu, params, n=20)
+    for shape_name, integrand in (("tuple", lambda x, a: (torch.exp(-a * x), a * x)), ("tensor", lambda x, a: torch.exp(-a * x))):
+        del qf[:], qb[:]
+        aq = torch.tensor([0.7, 1.3], dtype=DT, requires_grad=True)
+        out = quad(integrand, torch.tensor(0.0, dtype=DT), torch.tensor(1.0, dtype=DT), params=(aq,), method=qfwd, fwdtag=1,
+                   bck_options={"method": qbck, "bcktag": 2})
+        tot = sum(o.sum() for o in out) if isinstance(out, (tuple, list)) else out.sum()
+        torch.autograd.grad(tot, aq)
+        ctx.count(("quad-bck-options", shape_name), nontrivial=True)
+        # (quad documents that the backward quadrature uses the forward options updated by bck_options)
+        if not qf or any(k != {"fwdtag": 1} for k in qf) or not qb or any(k != {"fwdtag": 1, "bcktag": 2} for k in qb):
+            ctx.fail("oracle", "options:quad:%s-integrand:backward-options" % shape_name,
+                     {"fwd_options": {"method": "<callable F>", "fwdtag": 1}, "bck_options": {"method": "<callable B>", "bcktag": 2}},
+                     {"forward_callable_received": qf[:2], "backward_callable_received": qb[:2]},
+                     "F runs in the forward pass with {'fwdtag': 1}, B in the backward pass with {'fwdtag': 1, 'bcktag': 2}")
+    # (c) zero right-hand side, smaller batch than the operator
+    A2 = (torch.randn(2, 3, 3, dtype=DT, generator=g) + 3 * torch.eye(3, dtype=DT)).requires_grad_()
+    for meth in ("exactsolve", "custom_exactsolve", "bicgstab", "cg", fwd):
+        Bz = torch.zeros(3, 1, dtype=DT, requires_grad=True)
+        try:
+            with warnings.catch_warnings():
+                warnings.simplefilter("ignore")
+                Xz = solve(xt.LinearOperator.m(A2, is_hermitian=False), Bz, method=meth)
+                gB, gA = torch.autograd.grad(Xz.sum(), (Bz, A2), allow_unused=True)
+        except Exception as e:
+            ctx.fail("oracle", "options:solve:zero-rhs-broadcast:exception", {"method": meth if isinstance(meth, str) else "<callable>"}, repr(e)[:200],
+                     "zeros of the broadcast shape")
+            continue
+        ctx.count(("zero-rhs-broadcast", meth if isinstance(meth, str) else "<callable>"), nontrivial=True)
+        ref_gB = torch.linalg.inv(A2.detach()).transpose(-2, -1).sum(dim=-1, keepdim=True).sum(dim=0)
+        if list(Xz.shape) != [2, 3, 1] or gB is None or list(gB.shape) != [3, 1] or not torch.allclose(gB, ref_gB, rtol=1e-6, atol=1e-8):
+            ctx.fail("oracle", "options:solve:zero-rhs-broadcast", {"method": meth if isinstance(meth, str) else "<callable>", "A": [2, 3, 3], "B": "zeros (3, 1)"},
+                     {"X_shape": list(Xz.shape), "grad_B": None if gB is None else gB.tolist()}, {"X_shape": [2, 3, 1], "grad_B": ref_gB.tolist()})
 
 
 def search(ctx):
